@@ -492,6 +492,7 @@ def check_flag_table(facts, rep):
     inst = 'SnfCalc::new|accumulator k exists iff flags[k]; p, pinv of size m, q, qinv of size n'
     want = {'p': ('m', 0), 'pinv': ('m', 1), 'q': ('n', 2), 'qinv': ('n', 3)}
     got = {}
+    rows = {}
     for p in SymEx(b, max_paths=2000).run():
         r = p.ret
         if p.end != 'return' or r is None or r[0] != 'adt' or len(r) != 5:
@@ -523,10 +524,36 @@ def check_flag_table(facts, rep):
                 f_ = strip(a_flag)
                 m_ = re.match(r'^arg2\[(\d)\]$', sk(f_))
                 flag = int(m_.group(1)) if m_ else None
+            if size is None and t[0] == 'adt' and t[1].endswith('Option') and t[2] in ('Some', 'None'):
+                # the helper was executed in place: on this path the field is Some(id(size)) or None, and the path has
+                # decided each flag it looked at - which flag decides this field is read off all paths below
+                flagv = {}
+                for c in p.branches():
+                    m_ = re.match(r'^arg2\[(\d)\]$', sk(c.term))
+                    if m_:
+                        flagv[int(m_.group(1))] = (c.value != 0)
+                sz = None
+                if t[2] == 'Some':
+                    v = strip(t[4][0])
+                    if v[0] == 'call' and v[1].split('::')[-1] == 'id' and len(v[2]) == 1:
+                        s_ = sk(strip(v[2][0]))
+                        sz = 'm' if re.match(r'^shape\(&?arg1\)\.0$|^nrows\(&?arg1\)$', s_) else ('n' if re.match(r'^shape\(&?arg1\)\.1$|^ncols\(&?arg1\)$', s_) else '?')
+                    else:
+                        sz = '?'
+                rows.setdefault(name, []).append((t[2] == 'Some', sz, flagv))
+                continue
             if size is None or flag is None:
                 got[name] = ('?', sk(t)[:80])
             else:
                 got[name] = (size, flag)
+    for name, rs in rows.items():
+        # the flag k with: present on a path iff flags[k] on that path (for all paths), and one size
+        ks = [k_ for k_ in range(4) if all(k_ in fv and fv[k_] == some for some, sz, fv in rs)]
+        sizes = {sz for some, sz, fv in rs if some}
+        if len(ks) == 1 and len(sizes) == 1 and '?' not in sizes and any(some for some, _, _ in rs) and any(not some for some, _, _ in rs):
+            got[name] = (next(iter(sizes)), ks[0])
+        else:
+            got[name] = ('?', 'presence follows flags %s, sizes %s' % (ks, sorted(sizes)))
     if set(got) != set(want) or any(v[0] == '?' for v in got.values()):
         rep.indet('E6.M5: SnfCalc::new outside the recognised fragment: %s' % {k: v for k, v in got.items() if v[0] == '?'} if got else 'E6.M5: SnfCalc::new: no struct literal found')
     elif got == want:
